@@ -259,7 +259,7 @@ def run(item):
         if vs & mv:
             V('extra-row', 'row %d' % impa['z'][i][2], 'NLP row matches no reference row', inst.pts[0])
     # the constant factor found for a dynamics row is 1/(its OWN scale) up to one constant per row family: factor * own scale is the same for every
-    # state / algebraic equation (defect rows: derivative scale of the state; continuity and gap rows: state scale; algebraic rows: their own scale)
+    # state / algebraic equation (defect rows: derivative scale of the state; continuity and gap rows: state scale; algebraic rows: their own scale times the scale of the algebraic variable of the same index, which is how rockit normalises them)
     import re as _re
     fam_scale = {'defect': (spec.derscale, 's'), 'cont': (spec.xscale, 's'), 'gap': (spec.xscale, 'i'), 'alg': (spec.algscale, 'a')}
     prods = {}
@@ -270,6 +270,8 @@ def run(item):
         scl, key_ = fam_scale[fam_]
         idx_ = int(_re.search(r'%s=(\d+)' % key_, lab).group(1))
         own = Fr(scl[idx_]) if scl is not None else Fr(1)
+        if fam_ == 'alg' and spec.zscale is not None:
+            own = own * Fr(spec.zscale[idx_])      # rockit's convention: algebraic equation a is divided by its own scale AND by the scale of algebraic variable a
         prods.setdefault(fam_, {}).setdefault(abs(Fr(fac) * own), []).append(lab)
     for fam_, byval in prods.items():
         if len(byval) > 1:
